@@ -24,8 +24,56 @@ let to_frec (x : v) : M.frec =
   | L [i; b; n] -> { M.fr_id = to_z i; M.fr_best = to_xnum b; M.fr_nd = to_pos n }
   | _ -> raise (Bad "frec")
 
+(* float oracles handed to the model as function arguments (exact double <-> Q conversion) *)
+let qf (q : M.q) : float = BQ.to_float (BQ.make q.M.qnum q.M.qden)
+let fq (f : float) : M.q = let q = BQ.of_float f in { M.qnum = BQ.num q; M.qden = BQ.den q }
+let finite_or_zero (f : float) : float = match classify_float f with FP_nan | FP_infinite -> 0. | _ -> f
+let lg (q : M.q) : M.q = fq (finite_or_zero (log10 (qf q)))
+let ln10 : M.q = fq (log 10.)
+let pen (c : M.q) : M.q option =
+  let f = -2. *. log (1. -. qf c) in
+  if classify_float f = FP_infinite || classify_float f = FP_nan then None else Some (fq f)
+
+let to_raw (x : v) : M.rawband =
+  match x with
+  | L [f; a; b] -> { M.rb_flag = to_z f; M.rb_flux = to_q a; M.rb_err = to_q b }
+  | _ -> raise (Bad "rawband")
+let to_pt (x : v) : M.q * M.q = to_pair to_q to_q x
+let of_fitres (r : M.fitres) : v = L [of_q r.M.f_av; of_q r.M.f_sc; of_xnum r.M.f_chi2; of_list of_q r.M.f_pred]
+let of_fitres3 (r : M.fitres3) : v =
+  L [of_q r.M.g_av; of_q r.M.g_sc; of_xnum r.M.g_chi2; of_list of_q r.M.g_pred; of_nat r.M.g_best; of_list of_xnum r.M.g_grid; of_list of_q r.M.g_avs]
+
 let dispatch (op : string) (x : v) : v =
   match op, args x with
+  | "get_av", [tab; vv; ts] ->
+      let tab = to_list to_pt tab and vv = to_q vv in
+      of_list (fun t -> of_q (M.get_av_m tab vv (to_q t))) (match ts with L l -> l | _ -> raise (Bad "list"))
+  | "rank", [chi] -> of_list of_nat (M.rank_m (to_list to_xnum chi))
+  | "interp_clamp", [tab; rs] ->
+      let tab = to_list to_pt tab in
+      of_list (fun r -> of_opt of_q (M.interp_clamp_m tab (to_q r))) (match rs with L l -> l | _ -> raise (Bad "list"))
+  | "fit2_all", [lo; hi; raws; alaw; models] ->
+      let raws = to_list to_raw raws and alaw = to_list to_q alaw in
+      L [of_q (M.fit2_det lg ln10 raws alaw);
+         of_list of_fitres (M.fit2_all lg ln10 pen (to_q lo) (to_q hi) raws alaw (to_list (to_list to_q) models))]
+  | "fit2_pkg", [tab; vv; wavs; lo; hi; raws; models] ->
+      let raws = to_list to_raw raws and tab = to_list to_pt tab and vv = to_q vv and wavs = to_list to_q wavs in
+      let alaw = List.map (M.get_av_m tab vv) wavs in
+      L [of_q (M.fit2_det lg ln10 raws alaw); of_list of_q alaw;
+         of_list of_fitres (M.fit2_pkg lg ln10 pen tab vv wavs (to_q lo) (to_q hi) raws (to_list (to_list to_q) models))]
+  | "fit3_pkg", [tab; vv; wavs; lo; hi; raws; thetas; ds; logds; models] ->
+      let raws = to_list to_raw raws and tab = to_list to_pt tab and vv = to_q vv and wavs = to_list to_q wavs in
+      let alaw = List.map (M.get_av_m tab vv) wavs in
+      L [of_q (M.fit3_m11 lg ln10 raws alaw); of_list of_q alaw;
+         of_opt (of_list of_fitres3)
+           (M.fit3_pkg lg ln10 pen tab vv wavs (to_q lo) (to_q hi) raws (to_list to_q thetas) (to_list to_q ds) (to_list to_q logds)
+              (to_list (to_list (to_list to_pt)) models))]
+  | "fit3_all", [lo; hi; raws; alaw; thetas; ds; logds; models] ->
+      let raws = to_list to_raw raws and alaw = to_list to_q alaw in
+      L [of_q (M.fit3_m11 lg ln10 raws alaw);
+         of_opt (of_list of_fitres3)
+           (M.fit3_all lg ln10 pen (to_q lo) (to_q hi) raws alaw (to_list to_q thetas) (to_list to_q ds) (to_list to_q logds)
+              (to_list (to_list (to_list to_pt)) models))]
   | "filter_output", [chi; cpd; recs] ->
       let (g, b) = M.filter_output_m (to_opt to_q chi) (to_opt to_q cpd) (to_list to_frec recs) in
       L [of_list (fun r -> of_z r.M.fr_id) g; of_list (fun r -> of_z r.M.fr_id) b]
